@@ -52,13 +52,20 @@ RULE = (
 ASSUMPTIONS = [
     "the simulated executor is a faithful nondeterministic model of ThreadPoolExecutor/as_completed (FIFO start, <=max_workers in flight, arbitrary finish order, arbitrary order over already-finished futures)",
     "branch bodies are atomic (no pre-emption inside a stage); stages are recording stubs",
+    "overlapping calls on one object are produced only in the form 'the nested call runs to completion while the outer one waits' (a subset of what real threads can do)",
+    "timeouts and durations are scheduler data (virtual clock), not real time",
     "CPython Future semantics; torch int64 arithmetic is exact",
 ]
+SIMULATED_TIME_NOTE = (
+    "the unchanged tree has no timer on this path (clock.reads_by_code_under_test stays 0); the simulation still owns the clock: time.time/"
+    "monotonic/perf_counter/sleep are virtual while the simulated pool is installed and every ParallelModel branch takes the virtual duration "
+    "its case gives it. probes.virtual_seconds_x1000 is the simulated time covered by the batch in milliseconds; logical time is events_total"
+)
 COMPONENTS_REAL = [
     "SequentialModel", "ConfigurableModel", "ParallelModel", "BranchingModel", "DeepJSCCModel", "ChannelCodeModel",
     "FeedbackChannelModel", "MultipleAccessChannelModel", "WynerZivModel",
 ]
-COMPONENTS_STUB = ["pipeline stages (recording stubs)", "thread pool (simulated executor, seeded scheduler)", "aggregator (recorder)"]
+COMPONENTS_STUB = ["pipeline stages (recording stubs)", "thread pool (simulated executor, seeded scheduler)", "clock (virtual)", "aggregator (recorder)"]
 
 PRIMES = [2, 3, 5, 7, 11, 13, 17, 19, 23, 29, 31, 37, 41, 43, 47, 53]
 
